@@ -1,6 +1,6 @@
 (** C11 — route flooding terminates and never loops. *)
 From Coq Require Import List NArith.
-From MM Require Import Model.Flood Proofs.FloodBase Proofs.FloodOnce Proofs.FloodPaths Generated.C11.
+From MM Require Import Model.Flood Model.FloodPreFix Proofs.FloodPreFixProofs Proofs.FloodBase Proofs.FloodOnce Proofs.FloodPaths Generated.C11.
 Import ListNotations.
 Local Open Scope N_scope.
 
@@ -72,6 +72,12 @@ Theorem C11_stored_paths_simple : forall cf k ops n ns e,
   NoDup (e_path e) /\ ~ In n (e_path e).
 Proof. exact stored_paths_simple. Qed.
 Print Assumptions C11_stored_paths_simple.
+
+(** The code BEFORE commit 0d4c0f2 violated the last clause: a replayed advertisement (seen-by = [replayer]) was forwarded by an agent already on its path, and a further agent stored the path [1;3;2;1;0]. *)
+Theorem C11_refuted_pre_fix_replayed_path :
+  exists ops, In [1; 3; 2; 1; 0] (map e_path (entries_pre [] 5 ops 4)).
+Proof. exact C11_pre_fix_replayed_path_revisits. Qed.
+Print Assumptions C11_refuted_pre_fix_replayed_path.
 
 (** Non-vacuity: a triangle with a tail; one announcement, a duplicate
     delivery, nothing expires: agent 1 processes (0,1) exactly once. *)
